@@ -786,7 +786,7 @@ FORMATS = {
              "chr2\t5\trs3\tG\tC\t1.5\tq10\tDP=1;AF=1.5e-1;AC=10;DB;QD=-3"]),
     "vcf-noheader": (".vcf", None, "", ["chr1\t10\trs1\tA\tT\t50\tPASS\tDP=10", "chr1\t20\t.\tAC\tA,G\t.\t.\tDP=7;DB"]),
     "vcf-info-string": (".vcf", "bionumpy.io.vcf_buffers:VCFWithInfoAsStringBuffer", _VCF_HEADER + _VCF_COLS + "\n",
-                        ["chr1\t10\trs1\tA\tT\t50\tPASS\tDP=10;AF=0.5", "chr1\t20\t.\tAC\tA,G\t.\t.\tDP=7;DB", "chr2\t1\tx\tG\tC\t1.5\tq10\t."]),
+                        ["chr1\t10\trs1\tA\tT\t50\tPASS\tDP=10;AF=0.5", "chr1\t20\t.\tAC\tA,G\t.\t.\tDP=7;DB", "chr2\t1\tx\tG\tC\t1.5\tq10\tDP=3"]),
     "vcf-gt": (".vcf", None, _VCF_HEADER + _VCF_COLS + "\tFORMAT\tS1\tS2\n", _GT_LINES),
     "vcf-gt-matrix": (".vcf", "bionumpy.io.vcf_buffers:VCFMatrixBuffer", _VCF_HEADER + _VCF_COLS + "\tFORMAT\tS1\tS2\n",
                       _GT_LINES + ["chr2\t9\t.\tT\tG\t.\t.\tDP=2;AF=0.5\tGT\t./.\t0/1"]),
